@@ -179,6 +179,15 @@ def gen(fn, tier):
                         a = (c, 0.05, 0.41)
                         k = dict(sgno=no, cell_choice=cc, output_stl=stl)
                         yield ((no, cc, c, stl), (a, k), (a, k), ("kw", fn))
+                    # bounds fed back from a previous output_stl column: they coincide bit for bit with a reflection's value
+                    import xfab.tools as _t
+
+                    col = _t.genhkl_unique(c, 0.05, 0.41, sgno=no, cell_choice=cc, output_stl=True)
+                    if len(col) > 6:
+                        lo_, hi_ = float(col[len(col) // 4, 3]), float(col[(3 * len(col)) // 4, 3])
+                        a = (c, lo_, hi_)
+                        k = dict(sgno=no, cell_choice=cc, output_stl=True)
+                        yield ((no, cc, c, "fed-back bounds", lo_, hi_), (a, k), (a, k), ("kw", fn))
                 elif fn == "genhkl_base":
                     a = (c, g.syscond, 0.05, 0.41, g.crystal_system, g.Laue, g.cell_choice, True)
                     yield ((no, cc, c), a, a, one)
